@@ -1,7 +1,7 @@
 (** Extraction of the group "paint" (C20) to OCaml. *)
 From Coq Require Extraction ExtrOcamlBasic.
-From DivanV Require Import Base.Res Base.ExtractPrelude Model.Painter Model.DriverPaint Model.Parse.
+From DivanV Require Import Base.Res Base.ExtractPrelude Model.Painter Model.DriverPaint Model.Parse Model.PaintThreads.
 Extraction Language OCaml.
 Set Extraction KeepSingleton.
 Extraction "model.ml" extraction_prelude
-  paint paint_ops invokes all_calls parse skeleton paint_sb lines classify mkRun mkCells.
+  paint paint_ops invokes all_calls parse skeleton paint_sb lines classify mkRun mkCells norm_threads.
